@@ -188,6 +188,15 @@ def run(ctx, rep, tier="quick"):
     from . import c14
     c14.s6b(ctx, rep, clause="S4")
     c14.failed_trial_leaves_pending(ctx, rep, "S4")
+    # a failed trial's NaN takes no part in any comparison that ranks a rung (shared with C05-S4): the rules about the NaN filter of
+    # get_top_list are taken over, relabelled
+    from . import c05 as _c05
+    sub = type(rep)(rep.prop)
+    _c05.s4_s5(ctx, sub)
+    for i in sub.items:
+        if i.clause == "S4":
+            i.clause = "S3"
+            rep.items.append(i)
     # the limit: the run carries on while the number of failures does not EXCEED max_failures, and ends with the error when it does
     g_ = ctx.P.method("Tuner", "_stop_condition")
     rv_ = [r.value for r in returns_of(g_)]
